@@ -331,7 +331,8 @@ def run_c16(prog, job):
     if shard == 0:
         create_fn = W.find('::create', LIB); detach_fn = [n for n in M.fns if n.endswith('::detach') and LIB in n and len(M.fns[n].params) == 2 and 'Manager' in M.fns[n].params[0][1]][0]
         caches_clear = [n for n in M.fns if n.endswith('::clear') and LIB in n and 'StatementCaches' in M.fns[n].params[0][1]][0]
-        for fate in itertools.product(('pooled', 'detached', 'dropped'), repeat=3 if job['tier'] == 'thorough' else 2):
+        caches_remove = [n for n in M.fns if n.endswith('::remove') and LIB in n and 'StatementCaches' in M.fns[n].params[0][1]][0]
+        for fate, with_shared in [(f_, sh_) for f_ in itertools.product(('pooled', 'detached', 'dropped'), repeat=3 if job['tier'] == 'thorough' else 2) for sh_ in (False, True)]:
             st = State(); st.log = (('act', 'registry', repr(fate)),)
             mgr = mk_struct(LIB, 'Manager', config=mk_struct('postgres/src/config.rs', 'ManagerConfig', recycling_method=mk_enum('RecyclingMethod', 'Fast')), pg_config=Agg('PgConfig', {}),
                             connect=Agg('Box', [Ref(st.alloc(Agg('Connector', [])))]), statement_caches=mk_struct(LIB, 'StatementCaches', caches=Agg('Mutex', [Agg('Vec', []), Opaque('unlocked'), False])))
@@ -351,7 +352,10 @@ def run_c16(prog, job):
                     inner = M.deref(x, arc.f[0]); cache = inner.f[0]
                     mp = [k for k, v in cache.f.items() if isinstance(v, Agg) and v.ty == 'RwLock'][0]
                     key = Agg('StatementCacheKey', [mk_enum('Cow', 'Owned', [S(z3.StringVal(f'q{i}'))]), mk_enum('Cow', 'Owned', [Agg('TypeList', [])])])
-                    cache2 = cache.with_field(mp, Agg('RwLock', [Agg('HashMap', [((key, Agg('Statement', [Opaque(f'stmt:x{i}'), Opaque(f'client:{i + 1}')])),)]), False]))
+                    skey = Agg('StatementCacheKey', [mk_enum('Cow', 'Owned', [S(z3.StringVal('shared'))]), mk_enum('Cow', 'Owned', [Agg('TypeList', [])])])
+                    ents = ((key, Agg('Statement', [Opaque(f'stmt:x{i}'), Opaque(f'client:{i + 1}')])),) + \
+                           (((skey, Agg('Statement', [Opaque(f'stmt:s{i}'), Opaque(f'client:{i + 1}')])),) if with_shared else ())
+                    cache2 = cache.with_field(mp, Agg('RwLock', [Agg('HashMap', [ents]), False]))
                     M.write(x, arc.f[0], inner.with_field(0, cache2))
                 arcs = []
                 for i, (w, f) in enumerate(zip(ws, fate)):
@@ -380,6 +384,24 @@ def run_c16(prog, job):
                     live = [a for a, f in zip(arcs, fate) if f == 'pooled']
                     got = [w_.f[0] for w_ in reg.items()]
                     oblige('the registry addresses exactly the caches of the clients the pool still owns', y, sorted(map(repr, got)) == sorted(map(repr, live)), detail=f'{fate}: {got} vs {live}')
+                    if with_shared:
+                        # statement_caches.remove(query, types): every client the pool owns forgets that statement, and only that one
+                        y0 = y.clone(); qroot = y0.alloc(S(z3.StringVal('shared'))); troot = y0.alloc(Agg('TypeList', []))
+                        sc_ref = Ref(mroot).field(*[k for k, v in y0.heap[mroot].f.items() if isinstance(v, Agg) and v.ty == 'StatementCaches'])
+                        for y1, r in W.call(y0, 'A', caches_remove, [sc_ref, Ref(qroot), Ref(troot)]):
+                            npaths += 1
+                            for i, (a, f) in enumerate(zip(arcs, fate)):
+                                if f == 'dropped': continue
+                                inner = M.deref(y1, a)
+                                if inner.f[0] is UNINIT: continue
+                                cache = inner.f[0]; mp = [v for v in cache.f.values() if isinstance(v, Agg) and v.ty == 'RwLock'][0]
+                                keys = [repr(k_) for k_, _ in mp.f[0].f[0]]
+                                has_shared = any('shared' in k_ for k_ in keys); has_own = any(f'q{i}' in k_ for k_ in keys)
+                                if f == 'pooled':
+                                    oblige('statement_caches.remove() removes the statement from every client the pool owns', y1, not has_shared, detail=f'{fate}: client {i} still caches it')
+                                    oblige('statement_caches.remove() leaves other statements alone', y1, has_own)
+                                else: oblige('statement_caches.remove() does not touch a client that was taken / detached', y1, has_shared and has_own)
+                        continue
                     for y1, r in W.call(y.clone(), 'A', caches_clear, [Ref(mroot).field(*[k for k, v in y.heap[mroot].f.items() if isinstance(v, Agg) and v.ty == 'StatementCaches'])]):
                         npaths += 1
                         for a, f in zip(arcs, fate):
